@@ -105,13 +105,13 @@ I_Nested == (c.fn = "union" /\ Len(c.mem) = 2 /\ c.mem[1].fn = "union") =>
 \* vacuity witnesses: each must be VIOLATED (checked by separate tiny runs with -continue off)
 W_KeyAccept   == ~(fam = "key" /\ out.v = "accept" /\ p.loc = "Kext" /\ c.via = "cert")
 W_KeyTamper   == ~(fam = "key" /\ p.integ = {"sv_long"} /\ p.decl = c.fn /\ p.alg = c.fn /\ p.skey = c.ckey /\ KeyLocOk(p))
-W_RaiseV      == ~(out.v = "raiseV" /\ fam = "key")
-W_RaiseT      == ~(out.v = "raiseT" /\ fam = "key")
+W_RaiseV      == ~(out.old = "raiseV" /\ out.v = "reject" /\ fam = "key")      \* (repaired situations are in the space)
+W_RaiseT      == ~(out.old = "raiseT" /\ out.v = "reject" /\ fam = "key")
 W_DigestRej   == ~(fam = "digest" /\ out.v = "reject")
 W_DigestPass  == ~(fam = "digest" /\ out.v = "accept" /\ p.decl = "ecdsa" /\ p.integ # {})
 W_ParamsAcc   == ~(fam = "params" /\ out.v = "accept" /\ p.dpos = "mid")
 W_UnionShort  == ~(fam = "union" /\ Len(c.mem) = 3 /\ out.calls = 2 /\ out.v = "reject")
-W_UnionRaise  == ~(fam = "union" /\ out.v = "raiseV" /\ out.calls = 3)
+W_UnionRaise  == ~(fam = "union" /\ out.old = "raiseV" /\ out.v = "reject" /\ out.calls = 3)
 W_VerifyDecl  == ~(fam = "verify" /\ out.v = "accept" /\ p.decl # p.alg)
 WitnessSeq == <<W_KeyAccept, W_KeyTamper, W_RaiseV, W_RaiseT, W_DigestRej, W_DigestPass, W_ParamsAcc, W_UnionShort, W_UnionRaise, W_VerifyDecl>>
 \* one run: a state CONSTRAINT notes which witnesses were seen, the POSTCONDITION wants all of them (1 worker)
